@@ -1,6 +1,7 @@
 """C17 — database loads round-trip and are all-or-nothing when the source fails."""
 import itertools
 import os
+import random
 import sqlite3
 import tempfile
 
@@ -77,6 +78,8 @@ class C17(Prop):
             fail = rng.choice([None, None] + list(range(0, nrows + 2)))
             yield Case('db_load', (rng.choice(KINDS), rng.random() < 0.5, rng.random() < 0.75, names, rows, fail, prior),
                        {'table': tname})
+        for c in self._big(rng, 2 if tier == 'quick' else 40):
+            yield c
         if tier == 'thorough':
             rows = (('r0', 0), ('r1', 1), ('r2', 2))
             prior = (('p0', 9), ('p1', 8))
@@ -88,6 +91,20 @@ class C17(Prop):
                     for bad in range(nr):
                         rr = tuple(r if i != bad else r[:1] for i, r in enumerate(rows[:nr]))
                         yield Case('db_load', (kind, is_todb, cm, ('a', 'b'), rr, None, prior), {'table': 't'})
+
+    def _big(self, rng, count):
+        rows = tuple(('r%d' % i, i) for i in range(2500))
+        prior = (('p0', 9), ('p1', 8))
+        for _ in range(count):
+            fail = rng.choice([None, 1, 999, 1001, 1200, 2001, 2501])
+            yield Case('db_load', (rng.choice(KINDS), rng.random() < 0.5, True, ('a', 'b'), rows, fail, prior), {'table': 't'})
+
+    def search(self, rng, broken, runner):
+        for c in self._big(rng, 24):
+            yield c
+        for i in range(10):
+            for c in self.cases(random.Random(rng.random()), 'quick'):
+                yield c
 
     def impl(self, case):
         import petl as etl
